@@ -94,4 +94,19 @@ PROPS = {
         "trusted_base": COMMON_TB,
         "assumptions": ["principals share no keys; tags are not generated"],
     },
+    "C02": {
+        "test": "TestC02",
+        "lean_modules": ["Gittuf.Props.C02"],
+        "n": {"quick": 40, "thorough": 1000},
+        "min_per_shard": 10,
+        "rule": "chains of 1-5 policy states on a real repository; each successor is obtained from its predecessor by one of: valid bump, "
+                "valid re-key, root rotation signed by old / new / both / predecessor's keys with threshold 1 or 2, forged root signature, "
+                "old root envelope kept with a forged primary rule file, unsigned primary file, root / primary version rollback, "
+                "delegated file added (signed by the delegating rule's principals or by an outsider), delegated file removed, dangling "
+                "delegated file, primary file dropped; pushes signed by the principal the state in force names are placed before, "
+                "between and after the policy entries; full, latest-only and from-entry verification are run with the real verifier, "
+                "compared with the Lean model, and the declarative chain conditions are evaluated on every accepted verification.",
+        "trusted_base": COMMON_TB,
+        "assumptions": ["controller repositories and caller-pinned initial root principals are not generated"],
+    },
 }
